@@ -292,6 +292,10 @@ def probe_first_solution(rn, planner, seed):
 
 def judge_run(ck, rn, planner, seed, hname, k, K, ops, stats):
     script, out, rc, err = rn.run(planner, seed, ops)
+    if out is None:
+        # a process timeout is reported as "never returns" only if a second run with a longer timeout agrees
+        # (LeakSanitizer symbolising thousands of leaked states on a loaded machine is slow, not a hang)
+        script, out, rc, err = rn.run(planner, seed, ops, timeout=900)
     fails = oracle(planner, ops, out, rc, err)
     ctx = contexts(ops)
     nontrivial = False
